@@ -43,6 +43,7 @@ type Prog struct {
 	Nodes []*PNode
 	Flows []*PFlow
 	nflow int
+	Raw   string // further children of the process / sub-process element (data objects ...)
 }
 
 func (p *Prog) Node(kind, id string) *PNode {
@@ -84,6 +85,7 @@ func taskKindOf(id string) string {
 }
 
 func (p *Prog) body(sb *strings.Builder) {
+	sb.WriteString(p.Raw)
 	for _, n := range p.Nodes {
 		el := kindElem[n.Kind]
 		if n.Kind == "task" {
